@@ -736,6 +736,11 @@ func (obj *SparseFloat32MatrixJointIterator) Ok() bool {
          !(obj.s2 == nil || obj.s2.GetFloat32() == float32(0))
 }
 func (obj *SparseFloat32MatrixJointIterator) Next() {
+  // skip positions where both operands hold a zero
+  for obj.next() && !obj.Ok() {
+  }
+}
+func (obj *SparseFloat32MatrixJointIterator) next() bool {
   ok1 := obj.it1.Ok()
   ok2 := obj.it2.Ok()
   obj.s1.ptr = nil
@@ -763,6 +768,7 @@ func (obj *SparseFloat32MatrixJointIterator) Next() {
   } else {
     obj.s2 = ConstFloat32(0.0)
   }
+  return ok1 || ok2
 }
 func (obj *SparseFloat32MatrixJointIterator) Get() (Scalar, ConstScalar) {
   if obj.s1.ptr == nil {
